@@ -8,6 +8,13 @@ TRUSTED_BASE = [
 ]
 
 TABLE = {
+    "C07": {
+        "obligations": ["C07_start", "C07_committed_eq_earliest", "C07_committed_eq_latest", "C07_committed_below", "C07_committed_above",
+                        "C07_nowhere_else", "C07_by_time_fails", "C07_no_commit_v0"],
+        "what": "Theorems about the per-partition decision of load_fetch_states as the model has it (startOffset over consumedOf): for every integer earliest, latest, reported group offset and every fallback it equals the specification specStart (committed offset iff earliest <= committed <= latest, else the fallback position, -1 / v0 code 3 = nothing committed); boundaries committed = earliest and committed = latest are instances; the start is never anything but the committed, earliest or latest offset; a by-time fallback without a valid commit makes creation fail. Correspondence + judge: boundary lattice committed in {none, e-1, e, e+1, mid, l-1, l, l+1} x (e = l | e < l) x fallback x group set/unset x storage over multi-topic / multi-partition / multi-broker assignments; the offset field of the first fetch per partition is compared with the specification computed from the cluster.",
+        "rule": "scenario = random cluster (1-3 brokers/topics/partitions, all led) with per-partition earliest/latest (e = l or e < l, values up to 2^33) and committed offsets on the boundary lattice, consumer with fallback earliest/latest/by-time, group set or unset, storage zk/kafka, builder options in random order; then one poll; non-trivial = a request reached a broker; distinct = distinct (results, request bytes) sequences",
+        "assumptions": ["every assigned partition has a leader when the consumer is created (for a leaderless partition the code stores offset -1; outside the property's quantifier)"],
+    },
     "C16": {
         "obligations": ["C16_duration", "C16_duration_invalid", "C16_consumer_set", "C16_consumer_frame", "C16_last_wins_crc",
                         "C16_last_wins_client_id", "C16_default_kept", "C16_consumer_perm", "C16_configure",
